@@ -27,6 +27,13 @@ def make_work(rng, tier):
 
 
 def run(ctx):
+    from . import c05num, common
+    res = run_sql(ctx)
+    # integer/decimal numeric and bitwise scalar functions (model/NumFn.v, props/C05num.v)
+    return common.merge_results(res, c05num.run(ctx), "numeric_bitwise_functions")
+
+
+def run_sql(ctx):
     return sqlprop.run_property(
         ctx, PID, "props/C05.v", make_work,
         "and3/or3/not3 are exactly the Kleene tables for all values (type error iff an operand is neither boolean nor NULL); commutativity, associativity, De Morgan, distributivity, dominance; WHERE keeps exactly the rows whose predicate is TRUE; IN lists equal their OR chain; CASE takes the first TRUE branch and never evaluates later ones; closed expressions evaluate independently of the environment (constant folding)",
